@@ -3,6 +3,7 @@ import BbRe.Lemmas.OutputsPath
 import BbRe.Lemmas.OutputsListing
 import BbRe.Lemmas.OutputsTree
 import BbRe.Lemmas.OutputsErrors
+import BbRe.Lemmas.OutputsParents
 /-!
 # C10 — reported outputs are exactly what the action produced
 
@@ -27,7 +28,9 @@ Property theorems about `Model/Outputs.lean`, the transcription of
   referenced by their own message = their digest); `m.kids` — the digests a message references;
   `fileOf` / `dirOf` / `symlinkOf` — the `FileNode` / `DirectoryNode` / `SymlinkNode` of one
   directory entry; `cleanDir env d` — no unreadable directory and no file whose CAS write fails
-  anywhere below `d`.
+  anywhere below `d`;
+* `DirAt q root` — location `q` below `root` is a directory; `SameShape x x'` — a directory stayed
+  a directory, anything else stayed exactly what it was; `q <+: l` — `q` is a prefix of `l`.
 -/
 namespace BbRe.Properties.C10
 open BbRe.Outputs BbRe.Lemmas.Outputs
@@ -97,6 +100,63 @@ theorem rejected_or_all_inside (w : Str) (ps : List Str) (up : Bool) :
   cases hw : resolveRel [] w with
   | error e => simp
   | ok wd => simp [registerAll_ok_iff]
+
+/-! ## parents_created -/
+
+/-- **Parent directories.**  Let the input root have no non-directory at a location that must
+become a parent directory of a declared output (then every `Mkdir` succeeds or reports EEXIST on a
+directory).  After `CreateParentDirectories`, for every declared output path, every proper prefix
+of its normalised location is a directory; everything that existed is unchanged (directories
+stay directories, files/symlinks/special files are identical); and nothing else was created: every
+new location is a proper, non-empty prefix of a declared location. -/
+theorem parents_created (w : Str) (ps : List Str) (up : Bool) (hy : Hierarchy) (r : Bool) (es : Entries)
+    (hh : newHierarchy w ps up = .ok hy)
+    (hnc : ∀ wd, resolveRel [] w = .ok wd → ∀ s ∈ ps, ∀ loc, resolveRel wd s = .ok loc →
+      ∀ q, q ≠ [] → q <+: loc.dropLast → ∀ x, walkN q (.dir r es) = some x → isDir x = true) :
+    ∃ wd es', resolveRel [] w = .ok wd ∧
+      hy.createParentDirectories (.dir r es) = .ok (.dir r es') ∧
+      (∀ s ∈ ps, ∀ loc, resolveRel wd s = .ok loc → ∀ q, q <+: loc.dropLast → DirAt q (.dir r es')) ∧
+      (∀ q x, walkN q (.dir r es) = some x → ∃ x', walkN q (.dir r es') = some x' ∧ SameShape x x') ∧
+      (∀ q, walkN q (.dir r es') ≠ none → walkN q (.dir r es) ≠ none ∨
+        ∃ s ∈ ps, ∃ loc, resolveRel wd s = .ok loc ∧ q ≠ [] ∧ q <+: loc.dropLast) := by
+  unfold newHierarchy at hh
+  cases hw : resolveRel [] w with
+  | error e => simp [hw] at hh
+  | ok wd =>
+    simp only [hw] at hh
+    have hpre := prefixes_registerAll wd _ hy ps hh
+    simp only [prefixesN_empty, List.not_mem_nil, false_or] at hpre
+    have hconf : NoConflict (prefixesN hy.root) es := by
+      intro q hq x r' hwalk
+      obtain ⟨s, hs, loc, hloc, hne, hpfx⟩ := (hpre q).1 hq
+      have : walkN q (.dir r es) = some x := by
+        cases q with
+        | nil => exact absurd rfl hne
+        | cons c q' => rw [walkN_cons] at hwalk ⊢; exact hwalk
+      exact hnc wd hw s hs loc hloc q hne hpfx x this
+    obtain ⟨es', hmk, hgood⟩ := cn_all hy.root es hconf
+    refine ⟨wd, es', rfl, ?_, ?_, ?_, ?_⟩
+    · simp [Hierarchy.createParentDirectories, hmk]
+    · intro s hs loc hloc q hpfx
+      cases q with
+      | nil => exact ⟨r, es', rfl⟩
+      | cons c q' => exact hgood.made _ ((hpre _).2 ⟨s, hs, loc, hloc, by simp, hpfx⟩) r
+    · intro q x hwalk
+      exact hgood.kept q x r hwalk
+    · intro q hwalk
+      rcases hgood.only q r hwalk with h | h
+      · exact Or.inl h
+      · exact Or.inr ((hpre q).1 h)
+
+/-- The hypothesis of `parents_created` is satisfiable and the conclusion non-trivial: with output
+`a/b/c` declared from working directory `.` and an input root that only holds a file `x`, the
+directories `a` and `a/b` are created and `x` is kept. -/
+example :
+    (newHierarchy [] [[97, 47, 98, 47, 99]] false).toOption.bind
+      (fun hy => (hy.createParentDirectories (.dir true [([120], .file false 1)])).toOption.map
+        (fun n => (walkN [[97], [98]] n).isSome && (walkN [[97], [98], [99]] n).isNone &&
+          (walkN [[120]] n).isSome)) = some true := by
+  rfl
 
 /-! ## exact_listing -/
 
@@ -463,5 +523,50 @@ theorem fault_free_error_iff (force : Bool) (w : Str) (ps : List Str) (up : Bool
     | file x c => simp [atLoc, noFaults]
     | symlink t => simp [atLoc]
     | special => simp [atLoc]
+
+/-! ## non-vacuity: one concrete run that meets the hypotheses of the theorems above
+
+Working directory `a`; declared `b`, `./b`, `c/../b` (three aliases of `a/b`), `b` again (a
+duplicate), `../a/d/` (a directory with two identical subdirectories), `..` (the input root
+itself), `x` (missing), `s` (a FIFO), `l` (a symlink with a non-normalised target). -/
+
+def exWd : Str := [97]
+def exPaths : List Str :=
+  [[98], [46, 47, 98], [99, 47, 46, 46, 47, 98], [98], [46, 46, 47, 97, 47, 100, 47], [46, 46], [120], [115],
+    [108]]
+def exRoot : Node :=
+  .dir true [([97], .dir true
+    [([98], .file true 5),
+     ([100], .dir true [([112], .dir true [([122], .dir true [])]), ([113], .dir true [([122], .dir true [])]),
+       ([102], .file false 19)]),
+     ([108], .symlink [120, 47, 47, 121, 47]),
+     ([115], .special)])]
+
+/-- CAS that rejects content id 19. -/
+def exEnv : Env := ⟨fun b => match b with | .file c => c == 19 | _ => false⟩
+
+example : (newHierarchy exWd exPaths true).toOption.isSome = true := by rfl
+
+/-- four `OutputFile`s (three aliases + one duplicate), one symlink with normalised target `x/y/`,
+two output directories; the special file makes the result an error. -/
+example :
+    (newHierarchy exWd exPaths true).toOption.map (fun hy =>
+      let res := hy.uploadOutputs noFaults false exRoot
+      (res.files.map (·.1), res.symlinks, res.dirs.map (fun e => (e.1, e.2.1.length)), res.errs)) =
+    some ([[98], [46, 47, 98], [99, 47, 46, 46, 47, 98], [98]], [([108], [120, 47, 121, 47])],
+      [([46, 46], 5), ([46, 46, 47, 97, 47, 100, 47], 3)], [.invalidArgument]) := by rfl
+
+/-- the Tree of `a/d` has 3 directories for 5 directories on disk: `p` and `q` (and their `z`) are
+identical and appear once. -/
+example :
+    (uploadOutputDirectoryEntered noFaults true
+      (.dir true [([112], .dir true [([122], .dir true [])]), ([113], .dir true [([122], .dir true [])])])
+      [[100]]).dirs.map (fun e => (e.2.1.length, e.2.2.isSome)) = [(3, true)] := by rfl
+
+/-- with the faulty CAS the file `a/d/f` is dropped from the Tree of `a/d` - and the error is set -/
+example :
+    (newHierarchy exWd [[100]] false).toOption.map (fun hy =>
+      ((hy.uploadOutputs exEnv false exRoot).errs, (hy.uploadOutputs noFaults false exRoot).errs)) =
+    some ([.put], []) := by rfl
 
 end BbRe.Properties.C10
